@@ -53,6 +53,9 @@ theorem addPrepL_led (cfg : Cfg) (hf : Nat → Nat) (st : St) (it : Item) (crT :
     PrepPost cfg st crT FB E (addPrepL cfg hf st it crT f w) := by
   unfold addPrepL
   split
+  · -- the check of the sizing loop fails: nothing has happened
+    exact ⟨rfl, h, by simp⟩
+  split
   · -- pvAddNogrow on the existing head
     cases hg : st.t.gens with
     | nil => exact ⟨rfl, h, by simp⟩
@@ -71,13 +74,13 @@ theorem addPrepL_led (cfg : Cfg) (hf : Nat → Nat) (st : St) (it : Item) (crT :
     · exact ⟨rfl, h, by simp⟩
     · split
       · -- the params block is refused: the array goes back
-        obtain ⟨h1, h2⟩ := h.alloc cfg.mgr (cfg.arrSize (newLog cfg.sp st.t))
+        obtain ⟨h1, h2⟩ := h.alloc cfg.mgr (cfg.arrSize (growLogD cfg.sp st.t))
         refine ⟨rfl, ?_, by simp⟩
         rw [h2]
         exact h1.free
       · rename_i hpar
         simp only
-        obtain ⟨h1, h2⟩ := h.alloc cfg.mgr (cfg.arrSize (newLog cfg.sp st.t))
+        obtain ⟨h1, h2⟩ := h.alloc cfg.mgr (cfg.arrSize (growLogD cfg.sp st.t))
         cases hfirst : st.t.gens.isEmpty with
         | false =>
           simp only [Bool.false_eq_true, if_false]
@@ -255,6 +258,9 @@ theorem addL_led (cfg : Cfg) (hf : Nat → Nat) (st : St) (it : Item) (cr : Crea
     simp only at c1 c2 ⊢
     exact ⟨fun _ => c1 (by simp), fun hc => by cases hc⟩
   | badAlloc =>
+    simp only at c1 c2 ⊢
+    exact ⟨fun _ => c1 (by simp), fun hc => by cases hc⟩
+  | invalid =>
     simp only at c1 c2 ⊢
     exact ⟨fun _ => c1 (by simp), fun hc => by cases hc⟩
 
